@@ -23,6 +23,7 @@ LEVEL_TEXT = (
     "has the normal form round(min(losses[:n]), p) == 0; with a folder set every abstract path ends with a "
     "create_checkpoint after its last state mutation (the stopping batch is saved); the constructor keeps precision 0 "
     "as 0. Decides these clauses for all inputs/paths; numerical rounding is numpy's."
+    ' The loss history the stopping test reads is written by the calibrator only: no in-place write through an alias lent to a sampler / loss / checkpoint writer (alias analysis of C02-R7 restricted to losses_samp).'
 )
 TECHNIQUE = "finite abstract evaluation of one loop iteration over a truth table of atoms (path-sensitive, three-valued) + event-order queries on the abstract paths + formula normal form"
 
